@@ -101,6 +101,20 @@ func (m *paceMonitor) check() (string, string) {
 		if c.qcStated != c.qcBlock {
 			return "pace:highqc-relabelled", fmt.Sprintf("%s: the high QC states view %d but certifies a block of view %d", who, c.qcStated, c.qcBlock)
 		}
+		// certified state moves only on evidence: a new high QC needs a real quorum of votes for exactly that block, a new
+		// high TC a real quorum of timeout signatures for exactly that view (ground truth from the signing log)
+		if qc := st.VS.HighQC(); c.qcBlock > p.qcBlock {
+			if b := m.cl.blockByHash(qc.BlockHash()); b != nil {
+				if real := m.cl.realSigners(b.ToBytes(), m.cl.StepNo); len(real) < q {
+					return "pace:highqc-without-evidence", fmt.Sprintf("%s: the high QC moved to %s, which only %v really signed (quorum %d)", who, blockName(b), SortedIDs(real), q)
+				}
+			}
+		}
+		if c.tc > p.tc {
+			if real := m.cl.realSigners(c.tc.ToBytes(), m.cl.StepNo); len(real) < q {
+				return "pace:hightc-without-evidence", fmt.Sprintf("%s: the high TC moved from view %d to view %d, but only %v really signed a timeout for view %d (quorum %d)", who, p.tc, c.tc, SortedIDs(real), c.tc, q)
+			}
+		}
 		if c.view > p.view {
 			// evidence for leaving view c.view-1 (and therefore for every earlier view of this jump)
 			v := c.view - 1
